@@ -31,7 +31,7 @@ type Item struct {
 //	chain:    append{Kind,NodeKey,NeedState} parallel{Items} branch{Items} compile{…}
 //	workflow: addnode{Key,Kind,NeedState} addinput{To,From,In,Fields} addbranch{From,Ends} addend{From,Fields}
 //	          setstatic{To,Fields[0]} compile{…}
-//	nested:   the graph calls on the outer Graph, sub{Key,ID,Kind} = outer.AddGraphNode(Key, inner[ID]) (inner[ID] is
+//	nested:   the graph calls on the outer Graph, sub{Key,ID,Kind,Trigger,MaxSteps} = outer.AddGraphNode(Key, inner[ID], WithGraphCompileOptions(…)) (inner[ID] is
 //	          created on first use: subok / subbad), inner{ID,Sub} = the graph call Sub on inner[ID]
 type Call struct {
 	Op         string   `json:"op"`
@@ -671,10 +671,15 @@ func (f *nestedFE) apply(c *Call) (error, *invoker) {
 			f.ids = append(f.ids, c.ID)
 			sort.Strings(f.ids)
 		}
-		if f.ws {
-			return f.gWS.AddGraphNode(c.Key, in.g), nil
+		// the node's own compile options (WithGraphCompileOptions): what the child is compiled with
+		var nopts []compose.GraphAddNodeOpt
+		if co := compileOpts(c); len(co) > 0 {
+			nopts = append(nopts, compose.WithGraphCompileOptions(co...))
 		}
-		return f.gM.AddGraphNode(c.Key, in.g), nil
+		if f.ws {
+			return f.gWS.AddGraphNode(c.Key, in.g, nopts...), nil
+		}
+		return f.gM.AddGraphNode(c.Key, in.g, nopts...), nil
 	case "inner":
 		in, ok := f.children[c.ID]
 		if !ok || c.Sub == nil {
